@@ -9,12 +9,12 @@ TITLE = "internal policy accepts only consistent signatures"
 
 
 def run(prog, chk):
-    algorithm_id_narrowing(prog, chk)
-    shape_table(prog, chk)
-    rfc3161_table(prog, chk)
-    rfc3161_index_table(prog, chk)
-    lifetime_time_table(prog, chk)
-    _run(prog, chk)
+    chk.defer(algorithm_id_narrowing, prog, chk)
+    chk.defer(shape_table, prog, chk)
+    chk.defer(rfc3161_table, prog, chk)
+    chk.defer(rfc3161_index_table, prog, chk)
+    chk.defer(lifetime_time_table, prog, chk)
+    chk.defer(_run, prog, chk)
 
 
 def _run(prog, chk):
@@ -257,7 +257,7 @@ def lifetime_time_table(prog, chk):
     every date of the table: for each representative t of the order regions of 0..2^64-1 around those dates, and for 2^31, 2^32, 2^63
     and 2^64-1, the value handed to the lookup is not before a date unless t is.  The expression is read from every call site in the
     library that hands a time_t derived from KSI_Integer_getUInt64 to a callee, and evaluated (casts wrap to their width)."""
-    from ksirules.interp import Interp, Path, inline_model, succeed_model
+    from ksirules.interp import Interp, Path, inline_model, succeed_model, unit_helpers
     from ksirules.model import strip, walk
     chk.rule("C01.lifetime", "the time handed to the algorithm-lifetime lookup is on the same side of every deprecation / obsolescence date as the "
                              "64-bit time of the signature (value table per call site, all order regions up to 2^64-1)", floor=30)
@@ -286,6 +286,9 @@ def lifetime_time_table(prog, chk):
                     continue
                 nsites += 1
                 helpers = {m["fn"] for m in walk(A) if m.get("k") == "call" and m.get("fn") and m["fn"] != "KSI_Integer_getUInt64"}
+                for h in list(helpers):
+                    for hf in prog.functions.get(h, []):
+                        helpers |= unit_helpers(prog, hf)
                 for t in reps:
                     ov = {"KSI_Integer_getUInt64": lambda I, p, n, a_, t=t: t}
                     I = Interp(fn, inputs={}, call_model=inline_model(prog, helpers, fallback=succeed_model(prog, ov)), on_unknown="stop", prog=prog)
